@@ -126,22 +126,90 @@ def exitDead : Res → Bool
   | .nz | .c => true
   | _ => false
 
-/-- is `r` overwritten before it is read, looking at the lines from `pos` on? Labels and dummies are passed
-    (a label does not change what lies ahead); the scan stops — "live" — at every branch, jump and call; at
-    the return the flags are dead (`exitDead`) -/
-def deadFrom (code : VCode) (r : Res) : Nat → Nat → Bool
-  | 0, _ => false
-  | fuel + 1, pos =>
-    match code[pos]? with
-    | some .dummy | some (.lab _) => deadFrom code r fuel (pos + 1)
-    | some (.ins mn o) =>
-      if readsReg mn o r then false
-      else if writesReg mn o r then true
-      else deadFrom code r fuel (pos + 1)
-    | some .rts => exitDead r
-    | _ => false
+/-- the flag a conditional branch tests -/
+def brReads (mn : Mn) (r : Res) : Bool :=
+  match mn, r with
+  | .BEQ, .nz | .BNE, .nz | .BMI, .nz | .BPL, .nz => true
+  | .BCC, .c | .BCS, .c => true
+  | _, _ => false
 
-def dead (code : VCode) (r : Res) (pos : Nat) : Bool := deadFrom code r (code.length + 1 - pos) pos
+/-- a liveness table: for every resource, one flag per line ("dead before this line") -/
+structure DTable where
+  a : List Bool
+  x : List Bool
+  y : List Bool
+  nz : List Bool
+  c : List Bool
+
+def DTable.row (D : DTable) : Res → List Bool
+  | .a => D.a | .x => D.x | .y => D.y | .nz => D.nz | .c => D.c
+
+def DTable.at (D : DTable) (r : Res) (k : Nat) : Bool := (D.row r).getD k false
+
+def DTable.empty : DTable := ⟨[], [], [], [], []⟩
+
+def allRes : List Res := [.a, .x, .y, .nz, .c]
+
+/-- what a table may claim at line `k`: dead before a line only if the line does not read the resource and either
+    overwrites it or it is dead before every successor; at the return exactly the flags; nothing before a call or
+    any other instruction outside the reasoned set -/
+def localOK (code : VCode) (D : DTable) (r : Res) (k : Nat) : Bool :=
+  !D.at r k ||
+  (match code[k]? with
+   | some .dummy | some (.lab _) => D.at r (k + 1)
+   | some (.ins mn o) => !readsReg mn o r && (writesReg mn o r || D.at r (k + 1))
+   | some .rts => exitDead r
+   | some (.br mn l) =>
+     !brReads mn r && D.at r (k + 1) && (match findLab code l with | some t => D.at r t | none => false)
+   | some (.jmp l) => (match findLab code l with | some t => D.at r t | none => false)
+   | _ => false)
+
+/-- the table is a post-fixed point of the liveness equations: every claim is justified locally. This is all
+    the soundness proof needs; how the table was found does not matter -/
+def consistentB (code : VCode) (D : DTable) : Bool :=
+  allRes.all fun r => (List.range ((D.row r).length)).all fun k => localOK code D r k
+
+/-- one backward sweep of the equations over a candidate for one resource (claims can only be withdrawn; the
+    sweep runs from the last line to the first, so straight-line code settles in one sweep). How the candidate is
+    found is irrelevant for soundness: only `consistentB` is trusted. -/
+def sweep (code : Array VLine) (tgt : Array (Option Nat)) (r : Res) (d : Array Bool) : Array Bool × Bool :=
+  (List.range code.size).foldr (fun k (acc : Array Bool × Bool) =>
+    let d := acc.1
+    let old := d.getD k false
+    let v := old &&
+      (match code[k]? with
+       | some .dummy | some (.lab _) => d.getD (k + 1) false
+       | some (.ins mn o) => !readsReg mn o r && (writesReg mn o r || d.getD (k + 1) false)
+       | some .rts => exitDead r
+       | some (.br mn _) =>
+         !brReads mn r && d.getD (k + 1) false && (match tgt.getD k none with | some t => d.getD t false | none => false)
+       | some (.jmp _) => (match tgt.getD k none with | some t => d.getD t false | none => false)
+       | _ => false)
+    if v == old then acc else (d.set! k v, true)) (d, false)
+
+def sweeps (code : Array VLine) (tgt : Array (Option Nat)) (r : Res) : Nat → Array Bool → Array Bool
+  | 0, d => d
+  | n + 1, d => let p := sweep code tgt r d; if p.2 then sweeps code tgt r n p.1 else p.1
+
+/-- the candidate: start from "everything is dead everywhere" and withdraw claims until nothing changes
+    (the greatest solution: a resource that is never read again is dead, also around loops) -/
+def candidate (code : VCode) : DTable :=
+  let arr := code.toArray
+  let tgt : Array (Option Nat) := arr.map fun l =>
+    match l with
+    | .br _ l => findLab code l
+    | .jmp l => findLab code l
+    | _ => none
+  let f : Res → List Bool := fun r => (sweeps arr tgt r 64 (Array.replicate arr.size true)).toList
+  ⟨f .a, f .x, f .y, f .nz, f .c⟩
+
+/-- the table the validator uses: the candidate if it checks, else "nothing is dead" (which always checks) -/
+def deadTable (code : VCode) : DTable :=
+  let D := candidate code
+  if consistentB code D then D else DTable.empty
+
+/-- is `r` dead before line `pos`? -/
+def dead (code : VCode) (r : Res) (pos : Nat) : Bool := (deadTable code).at r pos
 
 /-! ### facts -/
 
@@ -376,12 +444,12 @@ def lineOK (orig opt : VCode) (k : Nat) (K : Option Facts) (lo lp : VLine) : Boo
 
 /-- DIAGNOSTIC ONLY (no theorem is about it): `lineOK` with the resources `extra` assumed dead everywhere. The check
     uses it to name the reason of a rejection ("would be accepted if the carry were dead") -/
-def lineOKWith (extra : Res → Bool) (orig opt : VCode) (k : Nat) (K : Option Facts) (lo lp : VLine) : Bool :=
+def lineOKWith (extra : Res → Bool) (orig opt : VCode) (D : DTable) (k : Nat) (K : Option Facts) (lo lp : VLine) : Bool :=
   if lo == lp then (match lo with | .ins mn _ => supported mn | _ => true)
   else match K, lo, lp with
     | none, _, .dummy => (match lo with | .lab _ => false | _ => true)      -- unreachable line removed
     | some K, .ins mn o, .dummy =>
-      (supported mn && execOK mn o && removable K (fun r => extra r || dead opt r (k + 1)) mn o) ||
+      (supported mn && execOK mn o && removable K (fun r => extra r || D.at r (k + 1)) mn o) ||
       -- second half of `LDA o ; CLC|SEC` → `CLC|SEC ; (load removed)`
       ((mn == .CLC || mn == .SEC) && o == .none && decide (0 < k) && opt[k - 1]? == some (.ins mn .none) &&
         (match orig[k - 1]? with | some (.ins .LDA _) => true | _ => false))
@@ -397,29 +465,64 @@ def lineOKWith (extra : Res → Bool) (orig opt : VCode) (k : Nat) (K : Option F
       (c == .CLC || c == .SEC) && execOK .LDA o && orig[k + 1]? == some (.ins c .none) &&
         (opt[k + 1]? == some (.ins .LDA o) ||
          -- … and the exchanged load removed afterwards
-         (opt[k + 1]? == some .dummy && removable K (fun r => extra r || r == .c || dead opt r (k + 2)) .LDA o))
+         (opt[k + 1]? == some .dummy && removable K (fun r => extra r || r == .c || D.at r (k + 2)) .LDA o))
     | some _, .ins c .none, .ins .LDA o =>
       (c == .CLC || c == .SEC) && decide (0 < k) && orig[k - 1]? == some (.ins .LDA o) && opt[k - 1]? == some (.ins c .none)
     | _, _, _ => false
 
 
 def validateWith (extra : Res → Bool) (orig opt : VCode) : Bool :=
+  let D := deadTable opt
   orig.length == opt.length &&
-    ((factsOf orig).zip (orig.zip opt)).zipIdx.all fun (p, k) => lineOKWith extra orig opt k p.1 p.2.1 p.2.2
+    ((factsOf orig).zip (orig.zip opt)).zipIdx.all fun (p, k) => lineOKWith extra orig opt D k p.1 p.2.1 p.2.2
+
+/-- `lineOK` with the liveness table passed in (computed once per function by `validate`) -/
+def lineOKD (orig opt : VCode) (D : DTable) (k : Nat) (K : Option Facts) (lo lp : VLine) : Bool :=
+  if lo == lp then (match lo with | .ins mn _ => supported mn | _ => true)
+  else match K, lo, lp with
+    | none, _, .dummy => (match lo with | .lab _ => false | _ => true)      -- unreachable line removed
+    | some K, .ins mn o, .dummy =>
+      (supported mn && execOK mn o && removable K (fun r => D.at r (k + 1)) mn o) ||
+      -- second half of `LDA o ; CLC|SEC` → `CLC|SEC ; (load removed)`
+      ((mn == .CLC || mn == .SEC) && o == .none && decide (0 < k) && opt[k - 1]? == some (.ins mn .none) &&
+        (match orig[k - 1]? with | some (.ins .LDA _) => true | _ => false))
+    | some _, .jmp l, .dummy =>
+      (match findLab orig l with
+       | some t => decide (k < t) && onlyFiller opt k t
+       | none => false)
+    -- a conditional branch that is known not to be taken
+    | some K, .br .BEQ _, .dummy => K.z == some false
+    | some K, .br .BNE _, .dummy => K.z == some true
+    -- `LDA o ; CLC|SEC` exchanged (first half at k, second half at k + 1)
+    | some K, .ins .LDA o, .ins c .none =>
+      (c == .CLC || c == .SEC) && execOK .LDA o && orig[k + 1]? == some (.ins c .none) &&
+        (opt[k + 1]? == some (.ins .LDA o) ||
+         -- … and the exchanged load removed afterwards
+         (opt[k + 1]? == some .dummy && removable K (fun r => r == .c || D.at r (k + 2)) .LDA o))
+    | some _, .ins c .none, .ins .LDA o =>
+      (c == .CLC || c == .SEC) && decide (0 < k) && orig[k - 1]? == some (.ins .LDA o) && opt[k - 1]? == some (.ins c .none)
+    | _, _, _ => false
+
 
 def checkFrom (orig opt : VCode) : Nat → List (Option Facts) → VCode → VCode → Bool
   | _, [], [], [] => true
   | k, K :: ks, lo :: ro, lp :: rp => lineOK orig opt k K lo lp && checkFrom orig opt (k + 1) ks ro rp
   | _, _, _, _ => false
 
+def checkFromD (orig opt : VCode) (D : DTable) : Nat → List (Option Facts) → VCode → VCode → Bool
+  | _, [], [], [] => true
+  | k, K :: ks, lo :: ro, lp :: rp => lineOKD orig opt D k K lo lp && checkFromD orig opt D (k + 1) ks ro rp
+  | _, _, _, _ => false
+
 /-- the validator -/
 def validate (orig opt : VCode) : Bool :=
-  orig.length == opt.length && checkFrom orig opt 0 (factsOf orig) orig opt
+  orig.length == opt.length && checkFromD orig opt (deadTable opt) 0 (factsOf orig) orig opt
 
 /-- position of the first line the validator does not accept (diagnostics only) -/
 def firstBad (orig opt : VCode) : Option Nat :=
+  let D := deadTable opt
   let rec go (k : Nat) : List (Option Facts) → VCode → VCode → Option Nat
-    | K :: ks, lo :: ro, lp :: rp => if lineOK orig opt k K lo lp then go (k + 1) ks ro rp else some k
+    | K :: ks, lo :: ro, lp :: rp => if lineOKD orig opt D k K lo lp then go (k + 1) ks ro rp else some k
     | _, _, _ => none
   go 0 (factsOf orig) orig opt
 
